@@ -364,8 +364,9 @@ def check_main(pid, tier, base_seed, jobs=None, budget_s=None, quiet=False):
     }
     if hasattr(check, "evidence_extra"):
         ev["coverage"].update(check.evidence_extra(total))
-    os.makedirs(os.path.join(VERIF, "evidence"), exist_ok=True)
-    with open(os.path.join(VERIF, "evidence", "%s.json" % pid), "w") as f:
+    evdir = os.environ.get("VERIF_EVIDENCE_DIR") or os.path.join(VERIF, "evidence")
+    os.makedirs(evdir, exist_ok=True)
+    with open(os.path.join(evdir, "%s.json" % pid), "w") as f:
         json.dump(ev, f, indent=1, sort_keys=True)
         f.write("\n")
     zero = [k for k in getattr(check, "EXPECTED_PROBES", []) if not total["probes"].get(k)]
